@@ -12,6 +12,7 @@ import (
 	"github.com/hashicorp/eventlogger/filters/encrypt"
 	wrapping "github.com/hashicorp/go-kms-wrapping/v2"
 	"verif/hk"
+	"verif/vrt"
 )
 
 // The three encrypt.Filter properties share one enumeration; each check keeps
@@ -128,7 +129,24 @@ func RunJob(prop, cls, tier string, js JobSpec, deadline time.Time) *hk.Result {
 					c.Wrapper = "fail"
 					fmt.Sscanf(w, "fail%d", &c.FailAt)
 				}
-				r := Run(c)
+				// default configuration: run under both iteration orders of the
+				// library's map walks (Go's own order is random)
+				orders := []bool{false}
+				if ph.Override == 0 && hasMultiEntryMap(n) {
+					orders = []bool{false, true}
+				}
+				var r *Result
+				for _, rev := range orders {
+					vrt.MapOrderReverse = rev
+					r = Run(c)
+					vrt.MapOrderReverse = false
+					if len(r.Problems) > 0 {
+						break
+					}
+					if rev {
+						res.Add("reversed_map_order_cases", 1)
+					}
+				}
 				res.Add("execs", 1)
 				res.Add("steps", 1)
 				res.Add("nodes", 1)
@@ -174,6 +192,24 @@ func RunJob(prop, cls, tier string, js JobSpec, deadline time.Time) *hk.Result {
 		}
 	})
 	return res
+}
+
+func hasMultiEntryMap(n *Node) bool {
+	switch n.K {
+	case "map", "mapss", "tmap", "stmap", "tstruct":
+		if len(n.Kids) > 1 {
+			return true
+		}
+	}
+	if n.K == "tstruct" {
+		return true
+	}
+	for _, k := range n.Kids {
+		if hasMultiEntryMap(k) {
+			return true
+		}
+	}
+	return false
 }
 
 // identityRule: with every operation overridden to none the event is forwarded unchanged (same pointer).
